@@ -792,7 +792,15 @@ impl PeerHandler {
             .ok_or(Error::PieceBuffMissing)
             .expect("Saving to file: piece data not exist after validation");
         let name = utils::hash_to_string(&piece_rx.hash) + ".piece";
-        match fs::write(name, &piece_rx.buff).await {
+
+        // In the end game the same piece can be completed by more than one connection. The piece
+        // file must never be seen half-written by the extractor or by an uploading connection, so
+        // write aside and move the complete file into place.
+        let tmp_name = format!("{}.{}.tmp", name, self.connection.addr);
+        if fs::write(&tmp_name, &piece_rx.buff).await.is_err() {
+            return Err(Error::FileCannotWrite);
+        }
+        match fs::rename(&tmp_name, &name).await {
             Ok(()) => Ok(()),
             Err(_) => Err(Error::FileCannotWrite),
         }
